@@ -89,6 +89,25 @@ func harness_C15_authz() {
 		fromNorm:      authz.NormalizeAuto,
 		authNorm:      authz.NormalizeAuto,
 	}
+	// normalisation settings: the user name is looked up under auth_normalize,
+	// addresses are compared under from_normalize
+	anorm := verifParam("anorm", -1) // auto (case-folding), noop, precis (case-preserving)
+	if anorm < 0 {
+		anorm = nondetChoice("auth_normalize", 3)
+	}
+	switch anorm {
+	case 1:
+		c.authNorm = authz.NormalizeNoop
+	case 2:
+		c.authNorm = authz.NormalizeFuncs["precis"]
+	}
+	fnoop := verifParam("fnoop", -1)
+	if fnoop < 0 {
+		fnoop = nondetChoice("from_noop", 2)
+	}
+	if fnoop == 1 {
+		c.fromNorm = authz.NormalizeNoop
+	}
 	if kind == 1 {
 		c.userToEmail = c15Multi{c15Table{kind}}
 	} else {
@@ -98,7 +117,8 @@ func harness_C15_authz() {
 	u := nondetChoice("user", len(users))
 	meta := &module.MsgMetadata{ID: "c15", Conn: &module.ConnState{}}
 	meta.Conn.AuthUser = users[u]
-	isAlice := u <= 1
+	// under a case-preserving auth_normalize "ALICE@Example.ORG" is another user (without entitlements)
+	isAlice := u == 0 || (u == 1 && anorm == 0)
 	st, err := c.CheckStateForMsg(context.Background(), meta)
 	if err != nil {
 		verifFail("C15.state")
